@@ -1,9 +1,40 @@
 import UF.Driver.Decode
-/- Ops of work group B (see notes/AGENT_GUIDE.md). Return `none` for ops of other groups. -/
+import UF.Model.Engine
+import UF.Spec.Engine
+/- Ops of work group B (C01, C02, C15). Return `none` for ops of other groups. -/
 namespace UF.Ops
+open UF
+
+/-- Sorted, de-duplicated list of byte strings, rendered as one token. -/
+def outTextSet (ts : List Bytes) : String :=
+  "(" ++ ",".intercalate ((Bytes.sortB ts.eraseDups).map outBytes) ++ ")"
+
+def decIdxNetRule (w : W) : Option (NetRule × Idx) :=
+  match w with
+  | .l [i, r] => do pure (← decNetRule r, ← i.int?)
+  | _ => none
+
+def retrieveFrom {α} (tbl : List (α × Idx)) (idx : Idx) : Option α :=
+  (tbl.find? (·.2 == idx)).map (·.1)
+
+/-- `c01.matchall ((idx R)…) Q psl addrs (pat…)`: model = the three-table engine built by folding
+    `addRule` over the rules in storage order; spec = linear scan. Answers: sorted text sets. -/
+def opC01 (args : List W) : String :=
+  match args with
+  | [.l rs, q, psl, addrs, pats] =>
+    match rs.mapM decIdxNetRule, decRequest q, decPslTable psl, decAddrTable addrs, decPatTable pats with
+    | some L, some q, some psl, some addrs, some pats =>
+      let ext := mkExt psl addrs pats
+      let e := Engine.build djb2 Facts.shortcutLength L
+      let model := e.matchAll djb2 Facts.shortcutLength (retrieveFrom L) ext q
+      let spec := specMatchAll ext (L.map (·.1)) q
+      outTextSet (model.map (·.text)) ++ " " ++ outTextSet (spec.map (·.text))
+    | _, _, _, _, _ => "bad-decode"
+  | _ => "bad-arity"
 
 def dispatchB (op : String) (args : List W) : Option String :=
-  match op, args with
-  | _, _ => none
+  match op with
+  | "c01.matchall" => some (opC01 args)
+  | _ => none
 
 end UF.Ops
